@@ -129,8 +129,14 @@ func ReplayFile(c *core.Ctx, tabs map[string]*Table) bool {
 		c.Broken("no model table for %+v", j.P)
 		return true
 	}
+	// the outcome of a script may depend on a race inside the requester: repeat the
+	// recorded script until it fails again (at most 25 times)
+	old := debug.SetGCPercent(-1)
+	defer debug.SetGCPercent(old)
 	var st Stats
-	runJob(c, t, j, &st)
+	for i := 0; i < 25 && c.Failures() == 0 && !c.IsBroken(); i++ {
+		runJob(c, t, j, &st)
+	}
 	c.Add("traces_validated_against_impl", st.Conform)
 	return true
 }
